@@ -957,8 +957,13 @@ def equatorial2ecliptical(right_ascension, declination, obliquity):
     ra = right_ascension.rad()
     dec = declination.rad()
     eps = obliquity.rad()
-    lon = atan2((sin(ra) * cos(eps) + tan(dec) * sin(eps)), cos(ra))
-    lat = asin(sin(dec) * cos(eps) - cos(dec) * sin(eps) * sin(ra))
+    # Components of the direction in the ecliptical frame. The latitude comes
+    # from atan2(), which is accurate (and defined) also at the poles
+    x = cos(dec) * cos(ra)
+    y = cos(dec) * sin(ra) * cos(eps) + sin(dec) * sin(eps)
+    z = sin(dec) * cos(eps) - cos(dec) * sin(eps) * sin(ra)
+    lon = atan2(y, x)
+    lat = atan2(z, sqrt(x * x + y * y))
     lon = Angle(lon, radians=True)
     lon = lon.to_positive()
     lat = Angle(lat, radians=True)
@@ -1001,8 +1006,13 @@ def ecliptical2equatorial(longitude, latitude, obliquity):
     lon = longitude.rad()
     lat = latitude.rad()
     eps = obliquity.rad()
-    ra = atan2((sin(lon) * cos(eps) - tan(lat) * sin(eps)), cos(lon))
-    dec = asin(sin(lat) * cos(eps) + cos(lat) * sin(eps) * sin(lon))
+    # Components of the direction in the equatorial frame. The declination
+    # comes from atan2(), which is accurate (and defined) also at the poles
+    x = cos(lat) * cos(lon)
+    y = cos(lat) * sin(lon) * cos(eps) - sin(lat) * sin(eps)
+    z = sin(lat) * cos(eps) + cos(lat) * sin(eps) * sin(lon)
+    ra = atan2(y, x)
+    dec = atan2(z, sqrt(x * x + y * y))
     ra = Angle(ra, radians=True)
     ra = ra.to_positive()
     dec = Angle(dec, radians=True)
@@ -1064,8 +1074,13 @@ def equatorial2horizontal(hour_angle, declination, geo_latitude):
     h = hour_angle.rad()
     dec = declination.rad()
     lat = geo_latitude.rad()
-    azi = atan2(sin(h), (cos(h) * sin(lat) - tan(dec) * cos(lat)))
-    ele = asin(sin(lat) * sin(dec) + cos(lat) * cos(dec) * cos(h))
+    # Components of the direction in the horizontal frame. The elevation
+    # comes from atan2(), which is accurate (and defined) also at the zenith
+    x = cos(dec) * cos(h) * sin(lat) - sin(dec) * cos(lat)
+    y = cos(dec) * sin(h)
+    z = sin(lat) * sin(dec) + cos(lat) * cos(dec) * cos(h)
+    azi = atan2(y, x)
+    ele = atan2(z, sqrt(x * x + y * y))
     azi = Angle(azi, radians=True)
     ele = Angle(ele, radians=True)
     return (azi, ele)
@@ -1120,8 +1135,13 @@ def horizontal2equatorial(azimuth, elevation, geo_latitude):
     azi = azimuth.rad()
     ele = elevation.rad()
     lat = geo_latitude.rad()
-    h = atan2(sin(azi), (cos(azi) * sin(lat) + tan(ele) * cos(lat)))
-    dec = asin(sin(lat) * sin(ele) - cos(lat) * cos(ele) * cos(azi))
+    # Components of the direction in the equatorial frame. The declination
+    # comes from atan2(), which is accurate (and defined) also at the poles
+    x = cos(ele) * cos(azi) * sin(lat) + sin(ele) * cos(lat)
+    y = cos(ele) * sin(azi)
+    z = sin(lat) * sin(ele) - cos(lat) * cos(ele) * cos(azi)
+    h = atan2(y, x)
+    dec = atan2(z, sqrt(x * x + y * y))
     h = Angle(h, radians=True)
     dec = Angle(dec, radians=True)
     return (h, dec)
@@ -1165,11 +1185,15 @@ def equatorial2galactic(right_ascension, declination):
     c1ra = c1 - ra
     c2 = Angle(27.4)
     c2 = c2.rad()
-    x = atan2(sin(c1ra), (cos(c1ra) * sin(c2) - tan(dec) * cos(c2)))
+    # The latitude comes from atan2(), accurate (and defined) also at the poles
+    xx = cos(dec) * cos(c1ra) * sin(c2) - sin(dec) * cos(c2)
+    yy = cos(dec) * sin(c1ra)
+    zz = sin(dec) * sin(c2) + cos(dec) * cos(c2) * cos(c1ra)
+    x = atan2(yy, xx)
     lon = Angle(-x, radians=True)
     lon = 303.0 + lon
     lon = lon.to_positive()
-    lat = asin(sin(dec) * sin(c2) + cos(dec) * cos(c2) * cos(c1ra))
+    lat = atan2(zz, sqrt(xx * xx + yy * yy))
     lat = Angle(lat, radians=True)
     return (lon, lat)
 
@@ -1211,11 +1235,15 @@ def galactic2equatorial(longitude, latitude):
     c2 = Angle(27.4)
     c2 = c2.rad()
     lc1 = lon - c1
-    y = atan2(sin(lc1), (cos(lc1) * sin(c2) - tan(lat) * cos(c2)))
+    # The declination comes from atan2(), accurate (and defined) at the poles
+    xx = cos(lat) * cos(lc1) * sin(c2) - sin(lat) * cos(c2)
+    yy = cos(lat) * sin(lc1)
+    zz = sin(lat) * sin(c2) + cos(lat) * cos(c2) * cos(lc1)
+    y = atan2(yy, xx)
     y = Angle(y, radians=True)
     ra = y + 12.25
     ra.to_positive()
-    dec = asin(sin(lat) * sin(c2) + cos(lat) * cos(c2) * cos(lc1))
+    dec = atan2(zz, sqrt(xx * xx + yy * yy))
     dec = Angle(dec, radians=True)
     return (ra, dec)
 
